@@ -583,19 +583,15 @@ func (self *LockManager) AddLock(lock *Lock) *Lock {
 		}
 	}
 
-	if self.currentLock == nil {
-		switch lock.command.ExpriedFlag & 0x1300 {
-		case protocol.EXPRIED_FLAG_ZEOR_AOF_TIME:
-			lock.aofTime = 0
-		case protocol.EXPRIED_FLAG_UNLIMITED_AOF_TIME:
-			lock.aofTime = 0xff
-		case protocol.EXPRIED_FLAG_AOF_TIME_OF_EXPRIED_PARCENT:
-			lock.aofTime = uint8(float64(lock.command.Expried) * Config.DBLockAofParcentTime)
-		default:
-			lock.aofTime = self.lockDb.aofTime
-		}
-	} else {
-		lock.aofTime = self.currentLock.aofTime
+	switch lock.command.ExpriedFlag & 0x1300 {
+	case protocol.EXPRIED_FLAG_ZEOR_AOF_TIME:
+		lock.aofTime = 0
+	case protocol.EXPRIED_FLAG_UNLIMITED_AOF_TIME:
+		lock.aofTime = 0xff
+	case protocol.EXPRIED_FLAG_AOF_TIME_OF_EXPRIED_PARCENT:
+		lock.aofTime = uint8(float64(lock.command.Expried) * Config.DBLockAofParcentTime)
+	default:
+		lock.aofTime = self.lockDb.aofTime
 	}
 
 	lock.locked = 1
